@@ -8,7 +8,7 @@ import shutil
 LEVEL = "model_checking"
 
 KINDS = ["File", "ContentFile", "IFile", "FileSet", "ContentFileSet", "IFileSet", "Dir", "ContentDir", "IDir"]
-OPS = ["delete", "truncate", "rewrite", "touch", "add-member", "remove-member", "rewrite-keep-stat", "symlink-loop", "none"]
+OPS = ["delete", "truncate", "rewrite", "touch", "add-member", "remove-member", "rewrite-keep-stat", "symlink-loop", "touch-submilli", "none"]
 NESTED_OPS = ["truncate-nested", "rewrite-nested", "touch-nested", "delete-nested"]  # Dir kinds only: a member inside a sub-directory
 COUNT = {"make": 0}
 
@@ -134,6 +134,14 @@ def apply_op(kind, path, op, step):
         if not os.path.exists(target):
             return False
         os.utime(target, (t, t))
+        return True
+    if op == "touch-submilli":
+        # the modification time moves by 0.3 ms WITHIN the same millisecond (two writes in quick succession): still another file state
+        if not os.path.exists(target):
+            return False
+        st = os.stat(target)
+        ns = st.st_mtime_ns + (300_000 if st.st_mtime_ns % 1_000_000 < 500_000 else -300_000)
+        os.utime(target, ns=(st.st_atime_ns, ns))
         return True
     if op == "add-member":
         if single or not os.path.isdir(path):
@@ -292,7 +300,7 @@ def run(ctx):
         "re_executions_observed": sum(r["reexec"] for r in res), "exhaustive": True,
         "rule": f"for each of 9 file value classes, returned bare, nested in a list (thorough: dict), or held by keyword (thorough: also by position) in "
         "a lazy call that is the producer's cached result, every history of {L} external changes "
-        "(delete, truncate, rewrite with new size, touch with new logical mtime, same-length rewrite with the mtime restored, replacement of a single file by a symbolic link to itself (absent, but stat fails with ELOOP), add member, remove member, the same on a member inside a "
+        "(delete, truncate, rewrite with new size, touch with new logical mtime, touch moving the mtime by 0.3 ms inside one millisecond, same-length rewrite with the mtime restored, replacement of a single file by a symbolic link to itself (absent, but stat fails with ELOOP), add member, remove member, the same on a member inside a "
         "sub-directory for Dir classes, nothing; delete followed by the re-run "
         "covers 'recreate'), each followed by a run of main -> make(path) on the shared backend; oracle: the run never raises, make re-executes "
         "iff the class is not immutable and the filesystem fingerprint (members with size+mtime, or content; computed by the harness, not by "
